@@ -136,9 +136,68 @@ def _poly(e):
             (m, c), = den.items()
             inv = {tuple((a, -p) for a, p in m): 1 / c}
             return p_mul(poly(ch[0]), inv)
-        rec = z3.RealVal(1) / ch[1] if ch[1].sort() == z3.RealSort() else z3.RealVal(1) / z3.ToReal(ch[1])
-        return p_mul(poly(ch[0]), _atom(rec))
+        # reciprocal atom keyed by the NORMALISED primitive denominator, so that equal polynomials share it
+        lead = den[min(den)]
+        prim = p_scale(den, 1 / lead)
+        rec = z3.RealVal(1) / rebuild(prim)
+        RECIPROCALS[rec.get_id()] = rec
+        return p_scale(p_mul(poly(ch[0]), _atom(rec)), 1 / lead)
+    if k == z3.Z3_OP_UNINTERPRETED and ch:
+        # canonicalise real-sorted arguments of uninterpreted applications (ER, COS, SIN, SQRT, operator symbols ...)
+        # so that equal arguments written differently yield the same atom
+        new = []
+        changed = False
+        for c in ch:
+            if c.sort() == z3.RealSort() and not (z3.is_rational_value(c) or z3.is_const(c)):
+                try:
+                    n = rebuild(poly(c))
+                except PolyTooLarge:
+                    n = c
+                if n.get_id() != c.get_id():
+                    changed = True
+                new.append(n)
+            else:
+                new.append(c)
+        if changed:
+            e2 = e.decl()(*new)
+            _KEEP.append(e2)
+            return _atom(e2)
     return _atom(e)
+
+
+RECIPROCALS: dict[int, z3.ExprRef] = {}
+
+
+def cancellation_side_conditions(terms):
+    """the denominators of all divisions inside the terms (outside ite branches they must be non-zero for the ring
+    identities x * x^-1 = 1 applied by the normaliser to be valid)"""
+    out, seen, stack = {}, set(), [t for t in terms if isinstance(t, z3.ExprRef)]
+    while stack:
+        x = stack.pop()
+        i = x.get_id()
+        if i in seen:
+            continue
+        seen.add(i)
+        if z3.is_app(x):
+            if x.decl().kind() == z3.Z3_OP_DIV:
+                d = x.arg(1)
+                if not (z3.is_int_value(d) or z3.is_rational_value(d)):
+                    out[d.get_id()] = d
+            stack.extend(x.children())
+    return list(out.values())
+
+
+def equal_by_normalisation(lhs, rhs):
+    """(True, side_conditions) if lhs - rhs normalises to 0 as a ring identity (side conditions: atoms that must be
+    non-zero for the cancellations that were applied), else (False, [])"""
+    try:
+        pl, pr = poly(lhs), poly(rhs)
+    except PolyTooLarge:
+        return False, []
+    d = p_add(pl, p_scale(pr, -1))
+    if d:
+        return False, []
+    return True, cancellation_side_conditions([lhs, rhs])
 
 
 def contains_any(e, var_ids, _cache={}):
